@@ -470,6 +470,9 @@ def m_seq(nodes, i, s, p, groups, pat, k):
     raise NotImplementedError(op)
 
 
+SPY = None      # census hook: called with (pattern source, flags) whenever an instrumented module asks for a pattern
+
+
 class SymRe:
     """stand-in for the `re` module inside an instrumented module"""
 
@@ -496,6 +499,8 @@ class SymRe:
             c = pattern.concrete_or_none()
             pattern = c if c is not None else _determine(pattern)
         k = (pattern, int(flags))
+        if SPY is not None:
+            SPY(pattern, int(flags))
         p = self._cache.get(k)
         if p is None:
             p = self._cache[k] = Pattern(pattern, flags)
